@@ -18,7 +18,7 @@ func init() {
 		Scope: Scope{Include: []string{"pkg/ot/", "pkg/mpc/rvole/"}}})
 	register(&propSpec{ID: "C10", StoreScope: Scope{Include: []string{"pkg/mpc/session/"}}, MinStores: 3, FrameScope: Scope{Include: []string{"pkg/mpc/session/", "pkg/mpc/zero/przs/", "pkg/commitments/hashcom/"}}, MinFrame: 3, MinFuncs: 10, Check: checkC10,
 		Scope: Scope{Include: []string{"pkg/mpc/session/", "pkg/mpc/zero/przs/", "pkg/commitments/hashcom/"}}})
-	register(&propSpec{ID: "C11", StoreScope: Scope{Include: []string{"pkg/network/"}}, MinStores: 1, FrameScope: Scope{Include: []string{"pkg/network/"}}, MinFrame: 1, MinFuncs: 20, Check: checkC11,
+	register(&propSpec{ID: "C11", StoreScope: Scope{Include: []string{"pkg/network/"}}, MinStores: 1, MinFuncs: 20, Check: checkC11,
 		Scope: Scope{Include: []string{"pkg/network/"}}})
 	register(&propSpec{ID: "C12", MinFuncs: 100, Check: checkC12,
 		Scope: Scope{Include: []string{"pkg/"}, KeyRe: regexp.MustCompile(`\.UnmarshalCBOR$|^pkg/base/serde\.`)}})
@@ -42,6 +42,9 @@ func genericGuards(r *Run) {
 		return
 	}
 	r.CheckGuardInventory(r.Prop+".G1", r.Prop+"_guards.json", spec.Scope, spec.MinFuncs)
+	if r.Prop != "C12" {
+		r.CheckCondInventory(r.Prop+".K1", r.Prop+"_conds.json", spec.Scope, spec.MinFuncs/2)
+	}
 	if len(spec.StoreScope.Include) > 0 {
 		r.CheckStoreGuards(r.Prop+".V1", r.Prop+"_stores.json", spec.StoreScope, spec.MinStores)
 	}
